@@ -33,6 +33,7 @@ func main() {
 		size := uint64(1) << uint(d)
 		var ops, outs []string
 		var used []uint64
+		current := map[uint64]*big.Int{}
 		allProofs := d <= 8 || ln <= 6
 		for i := 0; i < ln; i++ {
 			var idx uint64
@@ -60,6 +61,11 @@ func main() {
 			if g.Chance(1, 6) {
 				v = big.NewInt(0)
 			}
+			if cur, ok := current[idx%size]; ok && g.Chance(1, 5) {
+				v = new(big.Int).Set(cur) // rewrite a leaf with the value it already holds
+				stat["rewrite-same"]++
+			}
+			current[idx%size] = v
 			stat[fmt.Sprintf("kind%d", kind)]++
 			proof := tree.Update(int(idx), *v)
 			root := tree.Root()
